@@ -98,7 +98,7 @@ def run(res, tier, seed, replay):
     ob = obligations_or_violation(res, ["C20"])
     wd = workdir("C20")
     rng = random.Random(seed + 19)
-    n = {"quick": 40, "thorough": 800}[tier]
+    n = tier_size(tier, 40, 800)
     if replay and json.load(open(replay)).get("component") == "server":
         base = [json.load(open(replay))["scenario"]]
     else:
